@@ -41,7 +41,7 @@ M = [
      "            return left.__class__(left._op2(right.inv() if len(right) == 1 else right, lambda x, y: x @ y), check=False)"),
     ("C02_qpow_negative", ["C02", "C12"], BQ, "    if power < 0:\n        qr = conj(qr)", "    if power < -1:\n        qr = conj(qr)"),
     ("C02_twist_inv_prismatic", ["C02"], TW, "        return self.__class__([-t for t in self.data])", "        return self.__class__([-t if np.any(t[-1:]) else t for t in self.data])"),
-    ("C02_se2_inv_sign", ["C02"], P2, "            return SE2(tr.rt2tr(self.R.T, -self.R.T @ self.t))", "            return SE2(tr.rt2tr(self.R.T, -self.R @ self.t))"),
+    ("C02_se2_inv_sign", ["C02"], P2, "            return SE2(tr.rt2tr(self.R.T, -self.R.T @ self.t), check=False)", "            return SE2(tr.rt2tr(self.R.T, -self.R @ self.t), check=False)"),
     ("C02_pow_negative_exponent", ["C02"], SP, "        return self.__class__([np.linalg.matrix_power(x, n) for x in self.data], check=False)",
      "        return self.__class__([np.linalg.matrix_power(x, abs(n)) if n < -4 else np.linalg.matrix_power(x, n) for x in self.data], check=False)"),
     # C03 exp / log
@@ -91,7 +91,7 @@ M = [
     # C10 list behaviour
     ("C10_pop_default_first", ["C10"], UL, "    def pop(self, i=-1):", "    def pop(self, i=0):"),
     ("C10_insert_appends", ["C10"], UL, "        super().insert(i, item._A)", "        super().insert(len(self), item._A)"),
-    ("C10_setitem_no_len_guard", ["C10"], UL, "        if len(value) > 1:\n            raise ValueError(\"can't insert a multivalued element - must have len() == 1\")\n        self.data[i] = value.A",
+    ("C10_setitem_no_len_guard", ["C10"], UL, "        if len(value) != 1:\n            raise ValueError(\"can't insert a multivalued element - must have len() == 1\")\n        self.data[i] = value.A",
      "        self.data[i] = value.A"),
     ("C10_slice_negative_step", ["C10"], UL, "            return self._new(self.data[i])\n", "            return self._new(self.data[i] if (i.step or 1) > 0 else self.data[i][::-1])\n"),
     ("C10_getitem_revalidates", ["C10"], UL, "            return self._new([self.data[i]])", "            return self.__class__(self.data[i])"),
@@ -115,7 +115,7 @@ M = [
     ("C13_tr2jac_samebody", ["C13"], B3, "        return np.block([[R.T, (base.skew(t)@R).T], [Z, R.T]])", "        return np.block([[R.T, (base.skew(t)@R)], [Z, R.T]])"),
     # C14 normalisation
     ("C14_unittwist_uses_v", ["C14", "C03"], BV, "    if iszerovec(w):\n        th = norm(v)\n    else:\n        th = norm(w)\n\n    return S / th", "    if iszerovec(w) or norm(v) > 1e3 * norm(w):\n        th = norm(v)\n    else:\n        th = norm(w)\n\n    return S / th"),
-    ("C14_angdiff_no_shift", ["C14"], BV, "        return np.mod(a - np.asarray(b) + math.pi, 2 * math.pi) - math.pi", "        return np.mod(a - np.asarray(b), 2 * math.pi) - math.pi"),
+    ("C14_angdiff_no_shift", ["C14"], BV, "        return np.mod(a - np.asarray(b, dtype=np.float64) + math.pi, 2 * math.pi) - math.pi", "        return np.mod(a - np.asarray(b, dtype=np.float64), 2 * math.pi) - math.pi"),
     ("C14_unit_quaternion_tol", ["C14"], BQ, "    if abs(nm) < tol * _eps:\n        raise ValueError(\"cannot normalize (near) zero length quaternion\")\n    return q / nm", "    if abs(nm) < tol * _eps:\n        raise ValueError(\"cannot normalize (near) zero length quaternion\")\n    return q / nm if nm > 1e-4 else q"),
     # C15 forms / units
     ("C15_pure_no_getvector", ["C15"], BQ, "    v = base.getvector(v, 3)\n    return np.r_[0, v]", "    return np.r_[0, v]"),
